@@ -22,6 +22,7 @@ import (
 	"sort"
 	"strconv"
 	"strings"
+	"time"
 
 	"github.com/go-openapi/runtime"
 	"github.com/go-openapi/runtime/yamlpc"
@@ -136,6 +137,25 @@ func (m textM) MarshalText() ([]byte, error) {
 		return nil, errM
 	}
 	return m.b, nil
+}
+
+// dualText is both an encoding.TextMarshaler / TextUnmarshaler and a fmt.Stringer, with different renderings
+// (like time.Time): its text form is what MarshalText returns.
+type dualText struct {
+	v    string
+	fail bool
+}
+
+func (d dualText) MarshalText() ([]byte, error) {
+	if d.fail {
+		return nil, errM
+	}
+	return []byte(d.v), nil
+}
+func (d dualText) String() string { return "dual(" + d.v + ")" }
+func (d *dualText) UnmarshalText(b []byte) error {
+	d.v = string(b)
+	return nil
 }
 
 type stringer struct{ s string }
@@ -650,6 +670,18 @@ func execProduce(c *drv.Ctx, d, cfg M) bool {
 		src = (*jsonS)(nil)
 	case "nil":
 		src = nil
+	case "array0":
+		src = [0]byte{}
+	case "array16":
+		var a [16]byte
+		copy(a[:], content)
+		src = a
+	case "parray16":
+		var a [16]byte
+		copy(a[:], content)
+		src = &a
+	case "dualtm":
+		src = dualText{v: string(content), fail: drv.Bool(cfg["merr"])}
 	case "int":
 		src = 42
 	case "map":
@@ -1046,6 +1078,24 @@ func execRT(c *drv.Ctx, r M) bool {
 		}
 	case "text":
 		producer, consumer = runtime.TextProducer(), runtime.TextConsumer()
+		if v.t == "dual" {
+			src = dualText{v: string(v.s)}
+			var out dualText
+			dst = &out
+			result = func() val { return val{t: "dual", s: []byte(out.v)} }
+			break
+		}
+		if v.t == "time" {
+			tm, err := time.Parse(time.RFC3339Nano, string(v.s))
+			if err != nil {
+				panic(err)
+			}
+			src = tm
+			var out time.Time
+			dst = &out
+			result = func() val { b, _ := out.MarshalText(); return val{t: "time", s: b} }
+			break
+		}
 		src = string(v.s)
 		var out string
 		dst = &out
